@@ -28,6 +28,7 @@ func NewWorker[T any](wf func(j Job[T]), config ...any) IWorkerBinder[T] {
 		panicErr := utils.WithSafe("worker", func() {
 			wf(ij)
 		})
+		vhook("wrap.ret", ij)
 
 		// Track failed if panic occurred
 		if panicErr != nil {
@@ -67,6 +68,7 @@ func NewErrWorker[T any](wf func(j Job[T]) error, config ...any) IErrWorkerBinde
 		panicErr = utils.WithSafe("err-worker", func() {
 			err = wf(ij)
 		})
+		vhook("wrap.ret", ij)
 
 		// send error if any
 		if err := utils.SelectError(panicErr, err); err != nil {
@@ -104,12 +106,14 @@ func NewResultWorker[T, R any](wf func(j Job[T]) (R, error), config ...any) IRes
 
 		panicErr = utils.WithSafe("result-worker", func() {
 			result, e := wf(ij)
+			vhook("wrap.wf", ij)
 			if e != nil {
 				err = e
 			} else {
 				ij.sendResult(result)
 			}
 		})
+		vhook("wrap.ret", ij)
 
 		// send error if any
 		if err := utils.SelectError(panicErr, err); err != nil {
